@@ -353,6 +353,21 @@ func runC36(c *Ctx) {
 	if n3 == 0 {
 		c.Hold(r3, "no-pointer-keyed-object-map", 0, "no map in "+strings.Join(pkgs, ", ")+" is keyed by a pointer to a decoded object")
 	}
+	// the client applies a shallow update by removing the unshallowed commits from its list: a cursor over a list that
+	// shrinks under it skips the entry that slides into the removed one's place
+	const r4 = "cursor-recomputed-after-removal"
+	n4 := 0
+	for _, sp := range []string{trShort, "internal/transport", "git"} {
+		for _, fi := range p.FuncsIn(sp) {
+			if fi.Decl.Body != nil && !p.isTestFile(fi.Decl.Pos()) {
+				n4 += CursorOverShrinkingSlice(c, r4, fi)
+			}
+		}
+	}
+	if n4 == 0 {
+		c.Hold(r4, "no-index-loop-over-a-shrinking-list", 0, "no loop in the transfer packages reads s[i] and removes elements from s in its body")
+	}
+	c.Floor(r4, 1)
 	c.Floor(r2, 5)
 	c.Floor(r3, 1)
 }
